@@ -13,7 +13,7 @@ E2 (bounded input-space enumeration), six finite spaces:
             assignments x distinguish_matches x hard_clip x include_terminal_gaps x as_string x intron sets,
             each result decoded by an independent CIGAR reader and read back by biotite, and
             FASTA set_alignment -> write -> read -> get_alignment.
-  triple    the same for every three-row trace over lengths <= 2 (thorough: one row up to 3), CIGAR for all six
+  triple    the same for every three-row trace over lengths <= 2 (quick: total length <= 5), CIGAR for all six
             ordered (reference, segment) row pairs.
   cigar     read_alignment_from_cigar for every CIGAR string with <= 3 (thorough 4) operations over MIDNSH=X
             with lengths 1, 2 (and 11 for <= 2 operations) x every reference offset 0..2, string and array
@@ -104,7 +104,7 @@ def bounds(tier):
         "pair_lengths": "L1 <= 3, L2 <= 3: every sub-range pair x every column sequence x every 2-letter assignment" if q
         else "L1 <= 3, L2 <= 3 for all 5 palettes; (4,1) (1,4) (4,2) (2,4) (4,3) (3,4) complete and (4,4) without clipped "
              "ends for the seed's palette",
-        "triple_lengths": "each <= 2: complete up to total length 5, (2,2,2) without clipped ends" if q
+        "triple_lengths": "each <= 2 with total length <= 5: complete" if q
         else "each <= 2: complete (total length <= 5 for all 5 palettes, (2,2,2) complete for the seed's palette)",
         "letters": 2,
         "palettes": "1 of 5 (by seed)" if q else "5 (see pair/triple/msa bounds)",
@@ -116,7 +116,8 @@ def bounds(tier):
                                "assignment (3 rows: 4 listed letter assignments)",
         "getitem": "all 2^m column masks, all increasing index arrays (int64, list, negative int32), all slices with "
                    "start/stop in {None,-m-1..m+1}, step in {None,1,2,3}; row selections: 1-d index, slices, every ordered "
-                   "row subset as list and int array, a tuple, every non-empty bool mask",
+                   "row subset as list and int array, a tuple, every non-empty bool mask (column array x row array, the "
+                   "unspecified class: masks / int arrays x row lists / row masks)",
         "score_gap_penalties": SCORE_GAPS,
         "msa": ("default distances: n=2,3 all ordered tuples over the 14 sequences of length 1..3, n=4 all 2380 multisets x 4 "
                 "listed orders; supplied distances (3 matrices): multisets n=2,3 (length <= 3), n=4 (length <= 2); supplied "
@@ -606,6 +607,9 @@ def part_getitem(b, tier):
             exp_s = [b.seqs[r] for r in rpos]
             extra = (lambda cl=cl, cidx=cidx, rl=rl, ridx=ridx: {"cols": [cl, repr(cidx)], "rows": [rl, repr(ridx)]})
             paired = cl in ARRAYISH and rl in ARRAYISH
+            if paired and (cl not in ("mask", "intarr") or rl not in ("list", "mask")):
+                # the unspecified class is exercised with masks / int arrays x row lists / row masks only
+                continue
             try:
                 res = ("ok", b.aln[index])
             except Exception as ex:  # noqa: BLE001
@@ -1376,7 +1380,6 @@ def shards(tier, seed):
             fam(lens, [pi], 1500)
         for lens in triple_small:
             fam(lens, [pi], 1200)
-        fam((2, 2, 2), [pi], 1200, full_only=True)
     else:
         for lens in pair_small:
             fam(lens, allp, 3000)
